@@ -84,11 +84,11 @@ def _summarise_goals(res):
     return n_goals, n_scalar, failed, unknown, backends
 
 
-def run_numeric(prop, tier, seed, repo, ids, points, mode, witness=None, timeout=900):
+def run_numeric(prop, tier, seed, repo, ids, points, mode, witness=None, timeout=900, typed=None):
     """Interpret obligations numerically on the real code (subprocess with the repository's own interpreter)."""
     fd, out = tempfile.mkstemp(prefix="gsv-num-", suffix=".json")
     os.close(fd)
-    req = {"prop": prop, "tier": tier, "seed": seed, "repo": repo, "ids": ids, "points": points, "mode": mode, "witness": witness or {}}
+    req = {"prop": prop, "tier": tier, "seed": seed, "repo": repo, "ids": ids, "points": points, "mode": mode, "witness": witness or {}, "typed": typed}
     fd2, reqf = tempfile.mkstemp(prefix="gsv-req-", suffix=".json")
     with os.fdopen(fd2, "w") as f:
         json.dump(req, f)
@@ -301,6 +301,33 @@ def check(prop, tier="quick", seed=0, repo="/repo", jobs=None, only=None, verbos
                     else:
                         cross_flakes.append({"obligation": oid, "failed": n_fail, "of": n_all, "first": first["failed_points"][0]["goals"][:2]})
                         print("NUMERIC-NOTE obligation=%s deviates numerically at %d of %d sampled points (isolated floating-point artefact, not a verdict)" % (oid, n_fail, n_all))
+    # --- bounded search for a dependence on the machine representation of the inputs (Python ints / integer arrays instead of
+    #     floats): the proofs are over the reals and cannot see it.  Reported only where the same numbers pass as floats.
+    typed_records = None
+    if num_ids and not only:
+        typed_ids = [o.id for o in obs if o.id in set(num_ids) and o.tier != "internal"]    # internal contracts take RESULTS of code as inputs
+        typed_run = run_numeric(prop, tier, seed, repo, typed_ids, 2 if tier == "quick" else 6, "typed") if typed_ids else {"results": {}, "points": 0}
+        if "error" in typed_run:
+            checker_errors.append((None, ["typed-input search failed to run: " + typed_run["error"]]))
+        else:
+            typed_records = {"obligations": len(typed_run["results"]), "points_each": typed_run.get("points"),
+                             "representation": "Python int / integer arrays", "failing": 0,
+                             "degenerate_points": sum(info.get("degenerate", 0) for info in typed_run["results"].values())}
+            ob_by_id = {o.id: o for o in obs}
+            for oid, info in typed_run["results"].items():
+                if info.get("failed_points"):
+                    typed_records["failing"] += 1
+                    fp = info["failed_points"][0]
+                    ob = ob_by_id[oid]
+                    labels = sorted({g["label"] for g in fp["goals"]})
+                    path = _write_replay(replay_dir, prop, ob, tier, seed, fp, {"typed_input_search": "the goals hold when these numbers are passed as floats and fail when they are passed as Python ints; the proof over the reals stands"}, True)
+                    kf = finding_for(known, prop, oid, labels)
+                    if kf:
+                        known_seen.append((oid, kf))
+                    elif ob.scope == "internal" or ob.tier == "internal":
+                        drift.append((ob, labels, "integer-typed inputs"))
+                    else:
+                        violations.append((ob, labels, path, True))
     # --- bounded stand-in for undecided obligations
     standin = None
     hard_undecided = []
@@ -408,6 +435,7 @@ def check(prop, tier="quick", seed=0, repo="/repo", jobs=None, only=None, verbos
             "canaries": {"total": canary_total, "refuted_as_required": canary_ok},
             "certificates": sum(r_["certificates"] for r_ in ob_records),
             "solver_time_s": {k: round(v, 3) for k, v in solver_time.items()},
+            "typed_input_search": typed_records,
             "numeric_crosscheck": None if cross is None or "error" in cross else {"obligations": len(cross["results"]), "points_each": cross.get("points"),
                                                                                  "failures": sum(1 for v in cross["results"].values() if v["failed_points"]),
                                                                                  "isolated_float_deviations": cross_flakes},
